@@ -15,7 +15,7 @@ LEVEL = 'partial'
 RULE = ('W: depfile texts = (a) gcc_depfile-model output for 0..6 dependency names drawn per character from weighted classes '
         '(plain, blank, hash, dollar, colon, percent/equals, backslash, other Make-special, quote, non-ASCII) with random wrap '
         'decisions, single and concatenated rules, (b) mutations of those, (c) random strings over a small alphabet, '
-        '(d) exhaustive sweep over {a : space backslash newline # $} up to length 5 (quick) / 6 (thorough), (e) corpus; '
+        '(d) exhaustive sweep over {a : space tab backslash newline #} up to length 5 (quick) / 6 (thorough), (e) corpus; '
         'non-trivial = contains an escape, a wrap or an error branch; distinct by exact text.  R: real gcc/clang -MMD on '
         'generated header names; real make -pn on model-accepted depfiles; real make on generated rule graphs with stamp '
         'recipes (build; build; touch; build; delete leaf; build).  System: generated C projects configured by the real '
@@ -50,7 +50,12 @@ def gen_name(rng, rep=None, classes=CLASSES, maxlen=8):
         if rep is not None:
             rep.count('char:' + classes[i][0])
         out.append(rng.choice(classes[i][1]))
-    return ''.join(out)
+    nm = ''.join(out)
+    # GNU Make drops a leading ./ from every name, on both sides of a rule (harmless, but the reader model and the
+    # literal comparisons keep names as written): do not generate such names
+    while nm.startswith('./'):
+        nm = nm[2:] or 'a'
+    return nm
 
 
 def gen_wdeps(rng, rep, classes, maxn=6):
@@ -165,7 +170,7 @@ def stage_w_depfix(rep, rng, n, sweep_len):
     texts += [mutate(rng, t) for t in valid[: n // 2]]
     texts += [''.join(rng.choice(alpha) for _ in range(rng.randint(0, 12))) for _ in range(n // 2)]
     from .gen import all_strings
-    texts += all_strings(['a', ':', ' ', '\\', '\n', '#', '$'], sweep_len)
+    texts += all_strings(['a', ':', ' ', '\t', '\\', '\n', '#'], sweep_len)
     texts = CORPUS_TEXT + load_corpus(rep) + texts
     calls, impl = [], []
     for t in texts:
@@ -277,7 +282,9 @@ def make_db_rules(text, d):
     """How real make read the file: {target line} from --print-data-base, or None if make reports an error."""
     with open(os.path.join(d, 'x.d'), 'w', newline='') as f:
         f.write(text)
-    p = subprocess.run(['make', '-pnrRq', '-f', 'x.d'], cwd=d, capture_output=True, text=True, timeout=60,
+    with open(os.path.join(d, 'wrap.mk'), 'w') as f:      # own default goal: a depfile target may start with a dot
+        f.write('c07-goal:\ninclude x.d\n')
+    p = subprocess.run(['make', '-pnrRq', '-f', 'wrap.mk'], cwd=d, capture_output=True, text=True, timeout=60,
                        env=common.impl_env())
     if re.search(r'\*\*\* (?!No rule to make target)', p.stderr) or 'x.d:' in p.stderr:
         return None
@@ -293,7 +300,8 @@ def make_db_rules(text, d):
             lines = lines[1:]
         if not lines or lines[0] == '# Not a target:':
             continue
-        rules.append(lines[0])      # a target whose name starts with a hash is printed raw, too
+        if lines[0] != 'c07-goal:':
+            rules.append(lines[0])  # a target whose name starts with a hash is printed raw, too
     return sorted(rules)
 
 
@@ -320,6 +328,9 @@ def stage_r_mkread(rep, rng, valid, n):
             tg = [x for r_ in m for x in r_[0]]
             if len(set(tg)) != len(tg) or any('\n' in x for x in tg):
                 rep.count('R:mk_read:dup-target-skipped')   # make merges rules of one target; not modelled
+                continue
+            if any(x.startswith('./') for r_ in m for x in r_[0] + r_[1]):
+                rep.count('R:mk_read:dot-slash-skipped')    # make normalises a leading ./ away; not modelled
                 continue
             want = sorted(x + ':' + ''.join(' ' + p for p in pr) for tgs, pr in m for x in tgs)
             got = make_db_rules(t, d)
@@ -859,11 +870,13 @@ def stage_system(rep, nhist, nedits, risky_chars):
         rep.traces += 1
         rep.count('sys:history:%s%s' % (cc, ':risky' if risky else ''))
         for f in fails[:1]:
-            nfail += 1
-            rep.fail('system: %s at %s (history %d, %s): %s' % (f.get('what', f['step']), f['step'], idx, cc,
-                                                               {k: v for k, v in f.items() if k not in ('trace', 'classes')}),
-                     {'kind': 'system', 'hist_index': idx, 'cc': cc, 'nedits': ne, 'risky': risky, 'failure': f},
-                     classes=f['classes'])
+            if rep.fail('system: %s at %s (history %d, %s): %s' % (
+                    f.get('what', f['step']), f['step'], idx, cc, {k: v for k, v in f.items() if k not in ('trace', 'classes')}),
+                    {'kind': 'system', 'hist_index': idx, 'cc': cc, 'nedits': ne, 'risky': risky, 'failure': f},
+                    classes=f['classes']):
+                nfail += 1          # known findings do not count as found failing inputs
+        if risky and not fails:
+            rep.count('sys:risky-scenario-passed:' + RISKY[risky])
     rep.stage('system', histories=len(jobs), failing=nfail)
     return nfail
 
@@ -877,18 +890,67 @@ def load_local_findings(rep):
         rep.known += [k for k in json.load(open(p)) if k.get('status') == 'open' and k['id'] not in have]
 
 
+# ----------------------------------------------------------------------------- direct oracle at unit level
+def check_fixed_depfile(tgt, deps, text, d):
+    """The property itself on the real code, without the model's reader: after the real depfixer, real make must see
+    the object's rule and one prerequisite-free rule per dependency.  Returns None or a description."""
+    out, err = impl_emit(text)
+    if err is not None:
+        return 'depfixer raised %r' % (err,)
+    got = make_db_rules(text + out, d)
+    want = sorted([tgt + ':' + ''.join(' ' + x for x in deps)] + [x + ':' for x in deps])
+    if got != want:
+        return 'make reads %r, expected %r (depfixer wrote %r)' % (got, want, out)
+    return None
+
+
+def stage_oracle_depfix(rep, rng, n):
+    cases = []
+    for _ in range(n):
+        tgt = gen_name(rng, None, OK_CLASSES)
+        wd = gen_wdeps(rng, None, OK_CLASSES)
+        names = [tgt] + [x for _, x in wd]
+        if len(set(names)) == len(names):
+            cases.append((tgt, wd))
+    oks = iter(common.model_batch([('depfix.name_ok', [x]) for tgt, wd in cases for x in [tgt] + [y for _, y in wd]]))
+    keep = []
+    for tgt, wd in cases:
+        if all([d_bool(next(oks)) for _ in range(1 + len(wd))]):
+            keep.append((tgt, wd))
+    texts = [d_str(r) for r in common.model_batch([('depfix.gcc_depfile', [tgt, wd]) for tgt, wd in keep])]
+    d = common.scratch('c07or')
+    bad = 0
+    try:
+        for (tgt, wd), text in zip(keep, texts):
+            rep.case('or:' + text, '\\' in text or '$' in text)
+            why = check_fixed_depfile(tgt, [x for _, x in wd], text, d)
+            if why:
+                bad += 1
+                rep.fail('depfixer + make: not every dependency of %r became an empty rule: %s' % (text, why),
+                         {'kind': 'depfix-oracle', 'tgt': tgt, 'deps': [x for _, x in wd], 'text': text, 'why': why})
+    finally:
+        shutil.rmtree(d, ignore_errors=True)
+    rep.stage('oracle:depfix->make', cases=len(keep), failures=bad)
+    return bad
+
+
 def run(rep):
     rng = random.Random(rep.seed)
     thorough = rep.tier == 'thorough'
     rep.proof_stage(coqchk=thorough)
     n = 1500 if thorough else 300
     dis, valid = stage_w_depfix(rep, rng, n, 6 if thorough else 5)
-    stage_r_cc(rep, rng, 60 if thorough else 12)
-    stage_r_mkread(rep, rng, valid, 400 if thorough else 80)
-    stage_r_makesem(rep, rng, 300 if thorough else 40)
+    rbad = stage_r_cc(rep, rng, 60 if thorough else 12)
+    rbad += stage_r_mkread(rep, rng, valid, 400 if thorough else 80)
+    rbad += stage_r_makesem(rep, rng, 300 if thorough else 40)
     load_local_findings(rep)
-    stage_system(rep, 10 if thorough else 2, 30 if thorough else 5, list(RISKY) if thorough else ['%', ':'])
-    if dis:
+    found = stage_oracle_depfix(rep, rng, 600 if thorough else 120)
+    found += stage_system(rep, 10 if thorough else 2, 30 if thorough else 5, list(RISKY) if thorough else ['%', ':'])
+    if dis and not found:
+        # the tie is broken but the ordinary budget found no failing input: search with a 10x budget
+        found = stage_oracle_depfix(rep, rng, 6000 if thorough else 1200)
+        found += stage_system(rep, 20, 5, [])
+    if dis and not found:
         i, call, iv, mv = dis[0]
         rep.fail('W:%s - model and implementation disagree (%d cases), e.g. %r: impl %r, model %r' % (
             call[0], len(dis), call[1], iv, mv),
@@ -898,5 +960,26 @@ def run(rep):
 
 def replay(rep, path):
     r = json.load(open(path))
-    print(json.dumps(r, indent=1)[:2000])
-    run(rep)
+    print(json.dumps(r, indent=1)[:3000])
+    load_local_findings(rep)
+    if r.get('kind') == 'system':
+        fails = run_history(rep, r['seed'], r['hist_index'], r['cc'], r['nedits'], r.get('risky'))
+        for f in fails[:1]:
+            rep.fail('system (replay): %s at %s: %s' % (f.get('what', f['step']), f['step'],
+                                                       {k: v for k, v in f.items() if k not in ('trace', 'classes')}),
+                     {'kind': 'system', 'hist_index': r['hist_index'], 'cc': r['cc'], 'nedits': r['nedits'],
+                      'risky': r.get('risky'), 'failure': f}, classes=f['classes'])
+        if not fails:
+            print('replay: the history now passes')
+    elif r.get('kind') == 'depfix-oracle':
+        d = common.scratch('c07or')
+        try:
+            why = check_fixed_depfile(r['tgt'], r['deps'], r['text'], d)
+        finally:
+            shutil.rmtree(d, ignore_errors=True)
+        if why:
+            rep.fail('depfixer + make (replay): %r: %s' % (r['text'], why), {k: r[k] for k in ('kind', 'tgt', 'deps', 'text')})
+        else:
+            print('replay: the case now passes')
+    else:
+        run(rep)
